@@ -370,6 +370,32 @@ func (ex *Exec) accountAllocN(et types.Type, n *T) {
 type MapEntry struct {
 	Guard, Key, Pres *T
 	Val   Value
+	KeyS  Value // string-keyed maps: the key as a Str (Key is nil)
+}
+
+// mapKey splits a key value into its scalar / string form.
+func mapKey(k Value) (*T, Value) {
+	if s, ok := k.(Str); ok {
+		return nil, s
+	}
+	return k.(*T), nil
+}
+
+func (ex *Exec) mapKeyEq(e MapEntry, k Value) *T {
+	if s, ok := k.(Str); ok {
+		return ex.strEq(e.KeyS.(Str), s)
+	}
+	return ex.C.Eq(e.Key, k.(*T))
+}
+
+func sameMapKey(a, b MapEntry) bool {
+	if a.Key != b.Key {
+		return false
+	}
+	if a.KeyS == nil || b.KeyS == nil {
+		return a.KeyS == nil && b.KeyS == nil
+	}
+	return sameValue(a.KeyS, b.KeyS)
 }
 
 type MapState struct {
@@ -388,6 +414,9 @@ type MapBase struct {
 func (ex *Exec) makeMap(t types.Type) *MapV {
 	mt := t.Underlying().(*types.Map)
 	kw := ex.widthOf(mt.Key())
+	if b, ok := mt.Key().Underlying().(*types.Basic); ok && b.Info()&types.IsString != 0 {
+		kw = 1 // string keys: compared with strEq (see mapKeyEq)
+	}
 	if kw <= 0 {
 		panic(unsupported("map key type " + mt.Key().String()))
 	}
@@ -399,16 +428,17 @@ func (ex *Exec) makeMap(t types.Type) *MapV {
 	return &MapV{KeyW: kw, St: st, Elem: mt.Elem()}
 }
 
-func (ex *Exec) mapFind(st MapState, k *T, zero Value) (Value, *T) {
+func (ex *Exec) mapFind(st MapState, kv Value, zero Value) (Value, *T) {
+	k, _ := mapKey(kv)
 	C := ex.C
 	val := zero
 	pres := C.False
-	if b := st.Base; b != nil {
+	if b := st.Base; b != nil && k != nil {
 		pres = C.BAnd(C.BAnd(C.Sle(b.Lo, k), C.Slt(k, b.Hi)), C.BNot(C.Eq(k, b.Except)))
 		val = ex.iteValue(pres, b.Val, zero)
 	}
 	for _, e := range st.E { // oldest first; newer entries override
-		hit := C.BAnd(e.Guard, C.Eq(e.Key, k))
+		hit := C.BAnd(e.Guard, ex.mapKeyEq(e, kv))
 		if hit.IsConst() && hit.Val == 0 {
 			continue
 		}
@@ -424,7 +454,7 @@ func (ex *Exec) mapLookup(m *MapV, key Value, mt types.Type) (Value, *T) {
 	if m.Nil {
 		return ex.zero(et), ex.C.False
 	}
-	return ex.mapFind(m.St.V.(MapState), key.(*T), ex.zero(et))
+	return ex.mapFind(m.St.V.(MapState), key, ex.zero(et))
 }
 
 func (ex *Exec) mapHas(m *MapV, k *T) *T {
@@ -441,9 +471,9 @@ func (ex *Exec) mapUpdate(m *MapV, key, val Value, site string, _ func(*MapV)) {
 	}
 	C := ex.C
 	st := m.St.V.(MapState)
-	k := key.(*T)
-	_, was := ex.mapFind(st, k, ex.zero(m.Elem))
-	ns := MapState{Base: st.Base, E: append(append([]MapEntry{}, st.E...), MapEntry{Guard: C.True, Key: k, Pres: C.True, Val: val})}
+	k, ks := mapKey(key)
+	_, was := ex.mapFind(st, key, ex.zero(m.Elem))
+	ns := MapState{Base: st.Base, E: append(append([]MapEntry{}, st.E...), MapEntry{Guard: C.True, Key: k, KeyS: ks, Pres: C.True, Val: val})}
 	if st.Count != nil {
 		ns.Count = C.Ite(was, st.Count, C.Add(st.Count, ex.k64(1)))
 	}
@@ -456,9 +486,9 @@ func (ex *Exec) mapDelete(m *MapV, key Value) {
 	}
 	C := ex.C
 	st := m.St.V.(MapState)
-	k := key.(*T)
-	_, was := ex.mapFind(st, k, ex.zero(m.Elem))
-	ns := MapState{Base: st.Base, E: append(append([]MapEntry{}, st.E...), MapEntry{Guard: C.True, Key: k, Pres: C.False, Val: ex.zero(m.Elem)})}
+	k, ks := mapKey(key)
+	_, was := ex.mapFind(st, key, ex.zero(m.Elem))
+	ns := MapState{Base: st.Base, E: append(append([]MapEntry{}, st.E...), MapEntry{Guard: C.True, Key: k, KeyS: ks, Pres: C.False, Val: ex.zero(m.Elem)})}
 	if st.Count != nil {
 		ns.Count = C.Ite(was, C.Sub(st.Count, ex.k64(1)), st.Count)
 	}
@@ -469,7 +499,7 @@ func (ex *Exec) mapDelete(m *MapV, key Value) {
 func (ex *Exec) mergeMapStates(c *T, a, b MapState) MapState {
 	C := ex.C
 	n := 0
-	for n < len(a.E) && n < len(b.E) && a.E[n].Guard == b.E[n].Guard && a.E[n].Key == b.E[n].Key && a.E[n].Pres == b.E[n].Pres && sameValue(a.E[n].Val, b.E[n].Val) {
+	for n < len(a.E) && n < len(b.E) && a.E[n].Guard == b.E[n].Guard && sameMapKey(a.E[n], b.E[n]) && a.E[n].Pres == b.E[n].Pres && sameValue(a.E[n].Val, b.E[n].Val) {
 		n++
 	}
 	out := append([]MapEntry{}, a.E[:n]...)
